@@ -80,7 +80,7 @@ func siblingPairs() [][2]maker {
 	a := func(b *tb) int { return b.lit(strArr("a", "y")) }
 	sc := func(b *tb) int { return b.lit(collh.St("y")) }
 	in := func(b *tb) int { return b.lit(collh.Ar(collh.In(7))) }
-	return [][2]maker{{y, z}, {y, nil}, {yz, z}, {a, z}, {z, sc}, {in, y}}
+	return [][2]maker{{y, z}, {y, nil}, {a, yz}, {sc, z}, {in, y}}
 }
 
 // the ways of nesting the part p next to s
@@ -195,7 +195,39 @@ func exhaustiveT(r *trunner) {
 			}
 		}
 	}
+	// every kind of type whose members are a slice that commonType extends (Enum: strings, Pattern: regexps,
+	// Variant: types), bare and nested in Type / Array: A merged with B1 and with B2, and the merged type (whose
+	// members have spare capacity when B1 overlaps A) merged with B2 and with D
+	for _, grp := range mergeGroups {
+		for _, wrap := range []string{"%s", "Type[%s]", "Array[%s]"} {
+			for _, a := range grp {
+				for _, b1 := range grp {
+					for _, b2 := range grp[2:5] {
+						b := &tb{}
+						pt := func(text string) int { return b.push(TOp{Kind: "ParseType", Text: fmt.Sprintf(wrap, text)}) }
+						ta, t1, t2, td := pt(a), pt(b1), pt(b2), pt(grp[len(grp)-1])
+						c1 := b.common(ta, t1)
+						b.common(ta, t2)
+						b.common(c1, t2)
+						b.common(c1, td)
+						b.common(t2, c1)
+						idx++
+						r.check(b.ops, idx%2 == 0, false, "merge-twice")
+					}
+				}
+			}
+		}
+	}
 	r.res.Extra["exhaustive_type_histories"] = idx
+}
+
+// per kind: A (three members), B (three members, two of them in A: the merged members have two spare cells), two
+// disjoint two-member types, a one-member type, a type written with spare capacity; the last one is D
+var mergeGroups = [][]string{
+	{"Enum['a', 'b', 'c']", "Enum['a', 'b', 'd']", "Enum['e', 'f']", "Enum['e']", "Enum['a', 'e', false]", "Enum['g', 'h']"},
+	{"Pattern[/a/, /b/, /c/]", "Pattern[/a/, /b/, /d/]", "Pattern[/e/, /f/]", "Pattern[/e/]", "Pattern[/a/, /e/]", "Pattern[/g/, /h/]"},
+	{"Variant[Integer[1, 2], Enum['a'], Float[1.0, 2.0]]", "Variant[Integer[1, 2], Enum['a'], Regexp[/x/]]", "Variant[Boolean, Binary]",
+		"Variant[Binary, Enum['a']]", "Variant[Integer[1, 2], Binary]", "Variant[Undef, Default]"},
 }
 
 // types of every kind whose parts are slices (members, patterns, variants, tuple and struct elements)
@@ -394,14 +426,14 @@ func randomTHistory(r *lib.Rng, n int, frag bool) []TOp {
 }
 
 func randomT(r *trunner, rng *lib.Rng) {
-	n, coq := 1500, 240
+	n, coq := 1000, 240
 	if r.cfg.Thorough() {
 		n, coq = 60000, 3000
 	}
 	for i := 0; i < n; i++ {
 		g := rng.Fork()
 		frag := i%2 == 0
-		ops := randomTHistory(g, 5+g.Intn(22), frag)
+		ops := randomTHistory(g, 5+g.Intn(20), frag)
 		r.check(ops, g.Bool(), frag && i/2 < coq, fmt.Sprintf("random-types(model fragment: %v)", frag))
 	}
 }
